@@ -13,7 +13,8 @@ LEVEL = "model_checking"
 RULE = (
     "configurations: schedule shapes S1 (two sequential tasks), S2 (parallel then task), S3 (parallel completed-by a task with an endless "
     "sibling, then a task), S4 (completed-by any), S5a/S5b (over-committed parallel with / without completed-by), S6 (time-period task), S7 "
-    "(unequal client counts, idle clients), S8 (completed-by task on the last of three clients, two clients per worker) x layouts {1 host x 1 core, 1x2, 2 hosts x 1, 1x3} x service-time profiles {uniform, client-skewed, "
+    "(unequal client counts, idle clients), S8 (completed-by task on the last of three clients, two clients per worker), S5c (second wave of "
+    "a completed-by element on a worker that does not host the completing task), S3x2 (two completed-by elements in a row) x layouts {1 host x 1 core, 1x2, 2 hosts x 1, 1x3} x service-time profiles {uniform, client-skewed, "
     "task-skewed} x clock offsets {0, +1000 s on the second host}; schedules: every sequence of transitions (deliver head of a "
     "sender/receiver channel | resume an executor thread | deliver a due wake-up | advance time, i.e. delay everything pending | run the "
     "executor thread at a sync point inside a handler) within the deviation bound. non-trivial = execution with at least one deviation; "
@@ -59,6 +60,10 @@ def shapes():
         "S7": lambda: [T("a", 3, it=1), T("b", 1, it=2), P([T("c", 2, it=1), T("d", 1, it=1)])],
         # the completing task is run by the last client, on a worker that also/only simulates other client ids than its own id
         "S8": lambda: [P([T("b", 2, time_period=ENDLESS), T("a", 1, it=3, completes=True)]), T("c", 3, it=1)],
+        # a worker that does not host the completing task owns a second wave of the element (an endless task) and has finished its first
+        "S5c": lambda: [P([T("a", 1, it=6, completes=True), T("b", 1, it=1), T("c", 1, it=1), T("d", 1, time_period=ENDLESS)], clients=2), T("e", 2, it=1)],
+        # two completed-by elements in a row: per-step state of the coordinator must not leak into the next step
+        "S3x2": lambda: [P([T("a", 1, it=3, completes=True), T("b", 1, time_period=ENDLESS)]), P([T("c", 1, it=2, completes=True), T("d", 1, time_period=ENDLESS)]), T("e", 2, it=1)],
     }
 
 
@@ -229,9 +234,10 @@ def run(tier, seed):
     cfgs = configs(tier)
     if tier == "quick":
         cfgs = [c for c in cfgs if c[2] == "uniform" or c[0] in ("S3", "S5a", "S8") or (c[0] in ("S4", "S7") and c[2] == "client-skewed")]
+        cfgs = [c for c in cfgs if not (c[0] in ("S5c", "S3x2") and c[1] in ("1x1", "1x3"))]
     res = explore.explore_parallel(check_race, cfgs, 1, seed=seed, max_exec_per_subtree=None)
     deep = [c for c in cfgs if c[0] == "S5a" and c[1] == "1x2" and c[2] == "uniform"] if tier == "quick" else [
-        c for c in cfgs if c[0] in ("S3", "S4", "S5a", "S5b") and c[1] in ("1x2", "2x1") and c[2] != "task-skewed"
+        c for c in cfgs if c[0] in ("S3", "S4", "S5a", "S5b", "S5c", "S3x2") and c[1] in ("1x2", "2x1") and c[2] != "task-skewed"
     ]
     r2 = explore.explore_parallel(check_race, deep, 2, seed=seed, max_exec_per_subtree=60 if tier == "quick" else 40000)
     res.merge(r2)
